@@ -19,6 +19,7 @@ import (
 	"math/rand"
 	"os"
 	"path/filepath"
+	"runtime"
 	"sort"
 	"strings"
 	"testing"
@@ -525,6 +526,11 @@ func vfc11Q(ss []string) []string {
 }
 
 type vfc11ReaderCase struct {
+	// phase is "" for the comparison right after the reader was built and "later:" when the same reader is
+	// asked again after newer headers were built (and possibly a GC cycle); it is part of the fingerprint.
+	phase string
+	// light: only a sample of the comparisons (used for the later re-checks).
+	light bool
 	c     int
 	ix    string // description of the index
 	rate  int
@@ -535,6 +541,9 @@ type vfc11ReaderCase struct {
 
 func (rc *vfc11ReaderCase) wit(extra map[string]any) map[string]any {
 	m := map[string]any{"index": rc.ix, "sampling_rate": rc.rate, "reader": rc.kind}
+	if rc.phase != "" {
+		m["phase"] = "reader asked again after newer index-headers (file and memory backed, other indexes) were built"
+	}
 	lv := map[string][]string{}
 	for n, vs := range rc.vals {
 		lv[fmt.Sprintf("%q", n)] = vfc11Q(vs)
@@ -550,7 +559,14 @@ func (rc *vfc11ReaderCase) wit(extra map[string]any) map[string]any {
 func vfc11CheckReader(r *vfkit.Run, rc *vfc11ReaderCase, hr Reader, o *vfc11Oracle, rng *rand.Rand, nLists int) {
 	ctx := context.Background()
 	c := rc.c
-	pfx := fmt.Sprintf("v%d:", o.version)
+	pfx := fmt.Sprintf("v%d:", o.version) + rc.phase
+	const modified = "re-asked-after-caller-modified-earlier-result"
+
+	// which names are looked at: all, or a sample
+	chkNames := o.names
+	if rc.light && len(chkNames) > 3 {
+		chkNames = vfkit.Perm(rng, o.names)[:3]
+	}
 
 	// index version
 	r.Eval(1)
@@ -563,15 +579,40 @@ func vfc11CheckReader(r *vfkit.Run, rc *vfc11ReaderCase, hr Reader, o *vfc11Orac
 	names, err := hr.LabelNames()
 	if err != nil || fmt.Sprintf("%q", names) != fmt.Sprintf("%q", o.names) {
 		r.Violation(c, pfx+"labelnames:differ", fmt.Sprintf("LabelNames()=%q,%v; full index has %q", names, err, o.names), rc.wit(nil))
+	} else {
+		// the caller owns the returned slice: editing it must not change later answers
+		for i := range names {
+			names[i] = "modified-by-caller"
+		}
+		r.Eval(1)
+		if names2, err := hr.LabelNames(); err != nil || fmt.Sprintf("%q", names2) != fmt.Sprintf("%q", o.names) {
+			r.Violation(c, pfx+"labelnames:differ:"+modified, fmt.Sprintf("second LabelNames()=%q,%v after the caller overwrote the elements of the first result; full index has %q", names2, err, o.names), rc.wit(nil))
+		}
 	}
 
 	// label values of every name, of the all-postings name and of an absent name
-	for _, n := range o.names {
+	for _, n := range chkNames {
 		r.Eval(1)
 		vs, err := hr.LabelValues(n)
 		if err != nil || fmt.Sprintf("%q", vs) != fmt.Sprintf("%q", o.values[n]) {
 			r.Violation(c, pfx+"labelvalues:differ", fmt.Sprintf("LabelValues(%q) returned %d values, err=%v; full index has %d", n, len(vs), err, len(o.values[n])),
 				rc.wit(map[string]any{"name": n, "got": vfc11Q(vs), "want": vfc11Q(o.values[n])}))
+			continue
+		}
+		// The caller owns the returned slice (callers filter/sort/clone it in place): after it was edited
+		// (element headers only, never the bytes the strings point to) the same question must get the same answer.
+		for i, j := 0, len(vs)-1; i < j; i, j = i+1, j-1 {
+			vs[i], vs[j] = vs[j], vs[i]
+		}
+		if len(vs) > 0 {
+			vs[rng.Intn(len(vs))] = "modified-by-caller"
+			vs = append(vs[:0], vs[len(vs)/2:]...)
+		}
+		r.Eval(1)
+		vs2, err := hr.LabelValues(n)
+		if err != nil || fmt.Sprintf("%q", vs2) != fmt.Sprintf("%q", o.values[n]) {
+			r.Violation(c, pfx+"labelvalues:differ:"+modified, fmt.Sprintf("second LabelValues(%q) returned %d values, err=%v, after the caller reordered/overwrote/truncated the first result in place; full index has %d", n, len(vs2), err, len(o.values[n])),
+				rc.wit(map[string]any{"name": n, "got": vfc11Q(vs2), "want": vfc11Q(o.values[n]), "steps": []string{"vs := LabelValues(name)", "reverse vs, overwrite one element, vs = append(vs[:0], vs[len/2:]...)", "LabelValues(name)"}}))
 		}
 	}
 	absentName := "absent-name"
@@ -588,6 +629,9 @@ func vfc11CheckReader(r *vfkit.Run, rc *vfc11ReaderCase, hr Reader, o *vfc11Orac
 
 	// symbols
 	for i, ref := range o.symRefs {
+		if rc.light && rng.Intn(len(o.symRefs)) >= 24 {
+			continue
+		}
 		r.Eval(1)
 		s, err := hr.LookupSymbol(ctx, ref)
 		if err != nil || s != o.symbols[i] {
@@ -645,13 +689,22 @@ func vfc11CheckReader(r *vfkit.Run, rc *vfc11ReaderCase, hr Reader, o *vfc11Orac
 	single(allName, allValue)
 	single(allName, "a")
 	single(absentName, "a")
-	for _, n := range o.names {
+	for _, n := range chkNames {
 		for _, v := range o.values[n] {
+			if rc.light && rng.Intn(len(o.values[n])) >= 6 {
+				continue
+			}
 			single(n, v)
+			if rng.Intn(8) == 0 {
+				single(n, v) // the same question again
+			}
 		}
 		for k := 0; k < 4; k++ {
 			single(n, vfc11Absent(rng, o.values[n]))
 		}
+	}
+	if rc.light {
+		nLists = 8
 	}
 
 	// multi-value lookups
@@ -674,8 +727,6 @@ func vfc11CheckReader(r *vfkit.Run, rc *vfc11ReaderCase, hr Reader, o *vfc11Orac
 			present = []string{allValue}
 		}
 		list := vfc11GenList(rng, present, rc.rate)
-		r.Eval(1)
-		got, err := hr.PostingsOffsets(name, list...)
 		nPresent, nAbsent, dup := 0, 0, false
 		classes := map[string]struct{}{}
 		for i, v := range list {
@@ -689,61 +740,80 @@ func vfc11CheckReader(r *vfkit.Run, rc *vfc11ReaderCase, hr Reader, o *vfc11Orac
 			}
 			classes[vfc11ValueClass(present, v)] = struct{}{}
 		}
-		for cl := range classes {
-			r.Count("lists_with_"+cl, 1)
+		if !rc.light {
+			for cl := range classes {
+				r.Count("lists_with_"+cl, 1)
+			}
+			if dup {
+				r.Count("lists_with_duplicates", 1)
+			}
+			if nPresent > 0 && len(list) > 1 {
+				r.Distinct(fmt.Sprintf("%s|%d|%s|%q|%q", rc.ix, rc.rate, rc.kind, name, list))
+			}
 		}
-		if dup {
-			r.Count("lists_with_duplicates", 1)
-		}
-		if nPresent > 0 && len(list) > 1 {
-			r.Distinct(fmt.Sprintf("%s|%d|%s|%q|%q", rc.ix, rc.rate, rc.kind, name, list))
-		}
-		w := func(extra map[string]any) map[string]any {
-			want := make([]string, len(list))
-			for i, v := range list {
-				if rg, ok := o.vfc11Want(name, v); ok {
-					want[i] = fmt.Sprint(rg)
-				} else {
-					want[i] = "not-found"
+		// attempt 1: the same question again after the caller overwrote the result of attempt 0 in place
+		for attempt := 0; attempt < 2; attempt++ {
+			sfx := ""
+			if attempt == 1 {
+				sfx = ":" + modified
+			}
+			r.Eval(1)
+			got, err := hr.PostingsOffsets(name, list...)
+			w := func(extra map[string]any) map[string]any {
+				want := make([]string, len(list))
+				for i, v := range list {
+					if rg, ok := o.vfc11Want(name, v); ok {
+						want[i] = fmt.Sprint(rg)
+					} else {
+						want[i] = "not-found"
+					}
+				}
+				m := rc.wit(map[string]any{"name": name, "values": vfc11Q(list), "got": fmt.Sprint(got), "err": fmt.Sprint(err), "want": want, "attempt": attempt})
+				for k, v := range extra {
+					m[k] = v
+				}
+				return m
+			}
+			bad := false
+			switch {
+			case name == absentName:
+				// Reader contract: for a name that does not exist no postings are returned.
+				for _, g := range got {
+					if g != NotFoundRange {
+						r.Violation(c, pfx+"multi:absent-name-has-postings"+sfx, fmt.Sprintf("PostingsOffsets(%q, %q)=%v for a name that is not in the index", name, list, got), w(nil))
+						bad = true
+						break
+					}
+				}
+			case err != nil:
+				r.Violation(c, pfx+"multi:error"+sfx, fmt.Sprintf("PostingsOffsets(%q, %q) failed: %v", name, list, err), w(nil))
+				bad = true
+			case len(got) != len(list):
+				cl := "all-present"
+				if nAbsent > 0 {
+					cl = "with-missing-values"
+				}
+				r.Violation(c, pfx+"multi:result-length-differs:"+cl+sfx, fmt.Sprintf("PostingsOffsets(%q, %d values: %d present, %d absent) returned %d ranges; missing values must be reported as {-1,-1}", name, len(list), nPresent, nAbsent, len(got)), w(nil))
+				bad = true
+			default:
+				for i, v := range list {
+					if ok, why := o.vfc11RangeOK(name, v, got[i]); !ok {
+						cls := vfc11ValueClass(present, v)
+						if i > 0 && list[i-1] == v || i+1 < len(list) && list[i+1] == v {
+							cls += "-duplicated"
+						}
+						wantRg, _ := o.vfc11Want(name, v)
+						r.Violation(c, pfx+"multi:"+why+":"+cls+sfx, fmt.Sprintf("PostingsOffsets(%q, %q)[%d] (value %q) = %v; full index has %v (found=%v)", name, list, i, v, got[i], wantRg, why != "absent-value-reported-found"), w(map[string]any{"position": i}))
+						bad = true
+						break
+					}
 				}
 			}
-			m := rc.wit(map[string]any{"name": name, "values": vfc11Q(list), "got": fmt.Sprint(got), "err": fmt.Sprint(err), "want": want})
-			for k, v := range extra {
-				m[k] = v
-			}
-			return m
-		}
-		if name == absentName {
-			// Reader contract: for a name that does not exist no postings are returned.
-			for _, g := range got {
-				if g != NotFoundRange {
-					r.Violation(c, pfx+"multi:absent-name-has-postings", fmt.Sprintf("PostingsOffsets(%q, %q)=%v for a name that is not in the index", name, list, got), w(nil))
-					break
-				}
-			}
-			continue
-		}
-		if err != nil {
-			r.Violation(c, pfx+"multi:error", fmt.Sprintf("PostingsOffsets(%q, %q) failed: %v", name, list, err), w(nil))
-			continue
-		}
-		if len(got) != len(list) {
-			cl := "all-present"
-			if nAbsent > 0 {
-				cl = "with-missing-values"
-			}
-			r.Violation(c, pfx+"multi:result-length-differs:"+cl, fmt.Sprintf("PostingsOffsets(%q, %d values: %d present, %d absent) returned %d ranges; missing values must be reported as {-1,-1}", name, len(list), nPresent, nAbsent, len(got)), w(nil))
-			continue
-		}
-		for i, v := range list {
-			if ok, why := o.vfc11RangeOK(name, v, got[i]); !ok {
-				cls := vfc11ValueClass(present, v)
-				if i > 0 && list[i-1] == v || i+1 < len(list) && list[i+1] == v {
-					cls += "-duplicated"
-				}
-				wantRg, _ := o.vfc11Want(name, v)
-				r.Violation(c, pfx+"multi:"+why+":"+cls, fmt.Sprintf("PostingsOffsets(%q, %q)[%d] (value %q) = %v; full index has %v (found=%v)", name, list, i, v, got[i], wantRg, why != "absent-value-reported-found"), w(map[string]any{"position": i}))
+			if bad || len(got) == 0 || rng.Intn(4) != 0 {
 				break
+			}
+			for i := range got {
+				got[i] = index.Range{Start: 7, End: 7}
 			}
 		}
 	}
@@ -764,6 +834,13 @@ func vfc11OpenReader(ctx context.Context, ix *vfc11Index, hdrDir string, rate in
 	return NewBinaryReader(ctx, log.NewNopLogger(), bkt, dir, ix.id, rate, NewBinaryReaderMetrics(nil))
 }
 
+// vfc11Live is a reader that is kept open while newer headers are built.
+type vfc11Live struct {
+	rc *vfc11ReaderCase
+	br *BinaryReader
+	o  *vfc11Oracle
+}
+
 func vfc11Describe(ix *vfc11Index) string {
 	return fmt.Sprintf("case-index %s %s", ix.id, ix.class)
 }
@@ -775,7 +852,8 @@ func TestVF_C11(t *testing.T) {
 		"adversarial alphabet, near-empty strings, long common prefixes) plus the repository's v1 fixture index; per index every sampling rate of the tier, file- and memory-backed BinaryReader alternating; " +
 		"oracle = Prometheus index.NewFileReader (LabelNames, SortedLabelValues, Symbols, PostingsRanges): names, values of every name, every symbol, PostingsOffset of every present value and of absent values, " +
 		"and PostingsOffsets of generated sorted lists (present/absent-before/between/after, duplicates, runs over several sampled groups) must agree, missing values = {-1,-1}/NotFoundRangeErr; " +
-		"exact ranges except the End of the last offset-table entry (>= true end, <= index size); distinct/non-trivial = (index, rate, name, list) with >=2 values of which >=1 present")
+		"exact ranges except the End of the last offset-table entry (>= true end, <= index size); answers must be stable: LabelNames/LabelValues/PostingsOffsets are asked again after the caller edited the earlier result in place, " +
+		"and the last 2..4 readers (both kinds, across indexes) stay open and a sample of all comparisons is repeated on them after each newer header was built and after GC cycles (fingerprint infix later:); distinct/non-trivial = (index, rate, name, list) with >=2 values of which >=1 present")
 	nIdx := r.N(60, 300)
 	nLists := r.N(200, 120)
 	rates := []int{1, 2, 3, 5, 32, 64}
@@ -787,10 +865,18 @@ func TestVF_C11(t *testing.T) {
 	}
 	r.Require(int64(nIdx*len(rates)*nLists), nIdx*len(rates)*nLists/5)
 	r.Assume("Prometheus' index.Writer/index.Reader (v0.309.1) are the trusted base: the oracle's names/values/symbols are additionally cross-checked against the generator's ground truth")
+	r.Assume("slices returned by LabelNames/LabelValues/PostingsOffsets belong to the caller, who may reorder, overwrite and truncate them in place (string bytes are never written)")
 	r.Assume("value lists passed to PostingsOffsets are sorted (documented precondition); label names and values are non-empty (TSDB invariant); sampling rate >= 1")
 	ctx := context.Background()
 	root := t.TempDir()
 
+	var live []vfc11Live // the most recently built readers, oldest first
+	built := 0
+	defer func() {
+		for _, l := range live {
+			_ = l.br.Close()
+		}
+	}()
 	for c := 0; c <= nIdx; c++ {
 		if !r.Want(c) {
 			continue
@@ -845,8 +931,13 @@ func TestVF_C11(t *testing.T) {
 			r.Count("indexes_with_more_symbols_than_cache_slots", 1)
 		}
 		hdrDir := filepath.Join(root, fmt.Sprintf("hdr%d", c))
+		kindRng := r.RandS("reader-kind", c)
 		for ri, rate := range rates {
+			// file- and memory-backed readers mixed; the first two of an index alternate so that both occur
 			kind := []string{"file", "memory"}[(c+ri)%2]
+			if ri >= 2 {
+				kind = vfkit.Pick(kindRng, []string{"file", "memory"})
+			}
 			rc := &vfc11ReaderCase{c: c, ix: vfc11Describe(ix), rate: rate, kind: kind, vals: o.values, names: o.names}
 			var br *BinaryReader
 			r.Guard(c, "new-binary-reader", rc.wit(nil), func() {
@@ -862,7 +953,30 @@ func TestVF_C11(t *testing.T) {
 			r.Guard(c, fmt.Sprintf("v%d:reader-call", o.version), rc.wit(nil), func() {
 				vfc11CheckReader(r, rc, br, o, r.RandS(fmt.Sprintf("lists-%d", rate), c), nLists)
 			})
-			_ = br.Close()
+			// Readers stay in use while other headers are built: the last 2..4 readers (of this and of the
+			// previous index, both kinds) are kept open and a sample of the comparisons is repeated on each
+			// older one now that a newer header exists, and once more after a GC cycle every 4th reader.
+			built++
+			recheck := func(stage string) {
+				for k, old := range live {
+					lrc := *old.rc
+					lrc.phase, lrc.light = "later:", true
+					r.Count("rechecks_of_older_"+old.rc.kind+"_reader_after_newer_"+kind+"_header", 1)
+					r.Guard(old.rc.c, fmt.Sprintf("v%d:later:reader-call", old.o.version), lrc.wit(nil), func() {
+						vfc11CheckReader(r, &lrc, old.br, old.o, r.RandS(fmt.Sprintf("recheck-%s-%d-%d", stage, built, k), c), 0)
+					})
+				}
+			}
+			recheck("built")
+			if built%4 == 0 {
+				runtime.GC()
+				recheck("gc")
+			}
+			live = append(live, vfc11Live{rc: rc, br: br, o: o})
+			for len(live) > 2+c%3 {
+				_ = live[0].br.Close()
+				live = live[1:]
+			}
 		}
 		// scratch hygiene: a thorough run writes hundreds of indexes
 		_ = os.RemoveAll(hdrDir)
